@@ -8,6 +8,26 @@ HOOK_COMMITS = subprocess.run(
 
 # id -> (built?, technique, level text, level note, design_ref)
 CHECKS = {
+ "C03": (True,
+   "history + executable reference model: differential execution of generated programs against an independent AST interpreter (M-prog)",
+   "Generated structured programs (all statement kinds of the property, feature interactions, deliberate runtime failures, cap-reaching recursion) are entered into a real interpreter, RUN to completion and compared with M-prog, an interpreter of the AST written from the documented semantics: exact printed output and (error kind, line). Held on the programs executed; known finding C03-KF1 is recognised by signature.",
+   "Trusts M-prog's reading of the documented semantics (DESIGN.md Appendix A); constructs no document fixes are not generated.",
+   "DESIGN.md §5 C03"),
+ "C08": (True,
+   "history + executable reference model, turn by turn: AwaitingInput points, trace/REENTER/EXTRA IGNORED records and variable state vs M-prog + independent reply model",
+   "Programs with INPUT at every placement class and scripted replies (numbers, text, empty, quoted, lists, colon tails, REENTER provocations) run on a real interpreter with tracing on; every host turn is compared with M-prog: state, every output record (so the resuming call re-executes only the INPUT), and variables/arrays at every input request and at the end.",
+   "Reply texts stay in the unambiguous zone of the reply model; known finding C08-KF1 (= C03-KF1) recognised by signature.",
+   "DESIGN.md §5 C08"),
+ "C09": (True,
+   "per-call monitors: trace/print records and hook counters of token-cursor reads per host call vs M-prog's turn sequence and a work bound",
+   "Every host call of generated programs is observed with tracing on: the per-call sequence must equal M-prog's one-statement-per-turn sequence; for token-soup programs per-call structural bounds hold; token-cursor reads per call are bounded by 30 x (line length + 1) for programs without user functions; non-terminating programs are driven 10000 turns with a break/CONT at a random turn.",
+   "Work = reads of the token cursor (hook counter); wall time never used. Known finding C09-KF1 (DATA index rebuild is O(program)) recognised by its own counter.",
+   "DESIGN.md §5 C09"),
+ "C17": (True,
+   "metamorphic self-comparison over the four option configurations + trace/warning records vs M-prog events",
+   "Each generated program runs four times on real interpreters (tracing x warnings, set by field or by TRACE/NOTRACE); runs must be identical after deleting Trace/Warning records (per-turn outputs, states, results, final variables/arrays), and the Trace and Warning records must equal M-prog's events per turn; immediate lines are never traced.",
+   "Warning wording not compared (kind, name, line are).",
+   "DESIGN.md §5 C17"),
  "C02": (True,
    "history + executable reference model: PRINT <expr> on the real interpreter vs an independent AST fold, exhaustive over small trees in two parenthesisations",
    "All trees with one binary operator over 68 decorated operands, all trees with two (quick) and three (thorough) binary operators over reduced operand sets, and random trees to depth 5 are printed with minimal and with redundant parentheses, evaluated by the real interpreter through PRINT and compared (text or error kind) with the reference fold. Held on every tree executed; exhaustive for the stated bounds.",
